@@ -5,6 +5,23 @@ expressions, scoped internal ids, allocator discipline.
 import ast
 
 from .core import AnalysisError, Unfoldable, norm, loc, walk_no_nested, attr_chain, call_name
+from .normalize import inline, local_env, expand, ctext
+from . import flow
+
+# helpers the rules key on (a call to them *is* the recognised construct): never inlined away
+ANCHOR_HELPERS = ('_find_node', '_find_all_nodes', '_get_node_ids_for_list', '_collect_nodeids', '_drop_edges_not_of_type')
+
+
+def method(prog, cls, fn):
+    """`fn` with the private helpers of its class inlined (except the anchor helpers)."""
+    return inline(prog, cls, fn, exclude=ANCHOR_HELPERS)
+
+
+def _enclosing_function(node):
+    p = node
+    while p is not None and not isinstance(p, (ast.FunctionDef, ast.AsyncFunctionDef)):
+        p = getattr(p, '_parent', None)
+    return p
 
 NXPG = 'fim.graph.networkx_property_graph:NetworkXPropertyGraph'
 MIXIN = 'fim.graph.networkx_mixin:NetworkXMixin'
@@ -30,6 +47,17 @@ def search_calls(fn):
 
 def parse_query(prog, q, mod, cls):
     """conjuncts [(op, field value, value expr)] of a networkx_query dict literal; top-level or under 'and'."""
+    if isinstance(q, ast.Name):
+        f = _enclosing_function(q)
+        if f is not None:
+            q = expand(q, local_env(f))
+    if isinstance(q, ast.Starred):
+        if isinstance(q.value, (ast.Tuple, ast.List)):
+            out = []
+            for e in q.value.elts:
+                out += parse_query(prog, e, mod, cls)
+            return out
+        return [('*', None, q.value)]
     if not isinstance(q, ast.Dict) or len(q.keys) != 1 or not isinstance(q.keys[0], ast.Constant):
         raise AnalysisError(f'{mod.relpath}:{q.lineno}: query is not a one-key dict literal: {norm(q, 80)}')
     op = q.keys[0].value
@@ -154,10 +182,14 @@ def check_allocators(prog, rep, rule):
                         if txt != '1':
                             rep.violation(rule, loc(mod, n), fq, norm(n), 'the id counter must start at 1')
                         continue
-                    ok = txt in ('self.start_id + len(temp_graph.nodes())', 'self.start_id + len(temp_graph.nodes)',
-                                 'self.start_id + len(temp_graph)', 'self.start_id + 1')
-                    if isinstance(n, ast.AugAssign) and not isinstance(n.op, ast.Add):
-                        ok = False
+                    relabelled = _relabelled_names(fn)
+                    if isinstance(n, ast.AugAssign):
+                        ok = isinstance(n.op, ast.Add) and (_is_count_of(n.value, relabelled) or _is_one(n.value))
+                    else:
+                        v = expand(n.value, {k: e for k, e in local_env(fn).items() if k not in relabelled})
+                        ok = isinstance(v, ast.BinOp) and isinstance(v.op, ast.Add) and any(
+                            ast.unparse(a) == 'self.start_id' and (_is_count_of(b, relabelled) or _is_one(b))
+                            for a, b in ((v.left, v.right), (v.right, v.left)))
                     if not ok:
                         rep.violation(rule, loc(mod, n), fq, norm(n),
                                       'the shared id counter may only advance by the number of nodes just inserted (or by 1 '
@@ -216,21 +248,73 @@ def check_allocators(prog, rep, rule):
         rep.violation(rule, loc(dmod, addn[0]), fq, f'new internal id is {norm(src) if src is not None else norm(key)}',
                       'the internal id of a new node must be taken from the per-graph counter (which only grows); an id '
                       'derived from the current node count is reused after a deletion and overwrites a surviving node')
-    bumps = [n for n in walk_no_nested(ab) if isinstance(n, ast.AugAssign) and ast.unparse(n.target) == 'self.graph_node_ids[graph_id]']
-    if len(bumps) != 1 or not isinstance(bumps[0].op, ast.Add) or ast.unparse(bumps[0].value) != '1':
+    CTR = 'self.graph_node_ids[graph_id]'
+    benv = local_env(ab)
+    bumps = [n for n in walk_no_nested(ab) if isinstance(n, ast.AugAssign) and ast.unparse(n.target) == CTR]
+    bump_ok = len(bumps) == 1 and isinstance(bumps[0].op, ast.Add) and _is_one(bumps[0].value)
+    if not bumps:
+        plain = [n for n in walk_no_nested(ab) if isinstance(n, ast.Assign) and any(ast.unparse(t) == CTR for t in n.targets)]
+        if len(plain) == 1:
+            v = expand(plain[0].value, benv)
+            bump_ok = isinstance(v, ast.BinOp) and isinstance(v.op, ast.Add) and any(
+                ast.unparse(a_) == CTR and _is_one(b_) for a_, b_ in ((v.left, v.right), (v.right, v.left)))
+    if not bump_ok:
         rep.violation(rule, loc(dmod, ab), fq, 'counter not advanced by one', 'the per-graph id counter must advance by one per node')
     for name in ('add_graph', 'add_graph_direct'):
         fn = dj.methods.get(name)
         sets = [n for n in walk_no_nested(fn) if isinstance(n, ast.Assign) and
                 any(ast.unparse(t) == 'self.graph_node_ids[graph_id]' for t in n.targets)]
         rep.instance(rule, f'{dj.name}.{name}: {[norm(s) for s in sets]}')
-        if len(sets) != 1 or ast.unparse(sets[0].value) not in ('len(self.graphs[graph_id].nodes()) + 1', 'len(self.graphs[graph_id].nodes) + 1',
-                                                                   'len(temp_graph.nodes()) + 1'):
+        graphs_of_id = _relabelled_names(fn) | {'self.graphs[graph_id]'}
+        for a in walk_no_nested(fn):      # aliases of the stored per-graph object
+            if isinstance(a, ast.Assign) and len(a.targets) == 1:
+                tt, vt = ast.unparse(a.targets[0]), ast.unparse(a.value)
+                if tt == 'self.graphs[graph_id]' and isinstance(a.value, ast.Name):
+                    graphs_of_id.add(vt)
+                if vt == 'self.graphs[graph_id]' and isinstance(a.targets[0], ast.Name):
+                    graphs_of_id.add(tt)
+        okv = False
+        if len(sets) == 1:
+            v = sets[0].value
+            okv = isinstance(v, ast.BinOp) and isinstance(v.op, ast.Add) and any(
+                _is_one(b) and _is_count_of(a, graphs_of_id) for a, b in ((v.left, v.right), (v.right, v.left)))
+        if not okv:
             rep.violation(rule, loc(dmod, fn), f'{dj.name}.{name}', 'counter not set to node count + 1 after import',
                           'after an import (dense ids 1..n) the counter must be n + 1')
         relabel = [n for n in walk_no_nested(fn) if isinstance(n, ast.Call) and call_name(n) == 'convert_node_labels_to_integers']
         if not relabel or ast.unparse(relabel[0].args[1] if len(relabel[0].args) > 1 else ast.Constant(0)) != '1':
             rep.violation(rule, loc(dmod, fn), f'{dj.name}.{name}', 'incoming graph not relabelled from 1', 'imported nodes must get dense ids from 1')
+
+
+def _relabelled_names(fn):
+    """locals assigned from nx.convert_node_labels_to_integers(...)"""
+    out = set()
+    for n in walk_no_nested(fn):
+        if isinstance(n, ast.Assign) and isinstance(n.value, ast.Call) and call_name(n.value) == 'convert_node_labels_to_integers':
+            for t in n.targets:
+                if isinstance(t, ast.Name):
+                    out.add(t.id)
+    return out
+
+
+def _is_one(e):
+    return isinstance(e, ast.Constant) and e.value == 1 and not isinstance(e.value, bool)
+
+
+def _is_count_of(e, graph_texts):
+    """len(G.nodes()) | len(G.nodes) | len(G) | G.number_of_nodes() | len(list(G.nodes())) with G one of graph_texts"""
+    if isinstance(e, ast.Call) and isinstance(e.func, ast.Attribute) and e.func.attr in ('number_of_nodes', 'order') and not e.args:
+        return ast.unparse(e.func.value) in graph_texts
+    if isinstance(e, ast.Call) and isinstance(e.func, ast.Name) and e.func.id == 'len' and len(e.args) == 1:
+        a = e.args[0]
+        if isinstance(a, ast.Call) and isinstance(a.func, ast.Name) and a.func.id == 'list' and len(a.args) == 1:
+            a = a.args[0]
+        if isinstance(a, ast.Call) and isinstance(a.func, ast.Attribute) and a.func.attr == 'nodes' and not a.args:
+            a = a.func.value
+        elif isinstance(a, ast.Attribute) and a.attr == 'nodes':
+            a = a.value
+        return ast.unparse(a) in graph_texts
+    return False
 
 
 def _enclosing_loop(node, fn):
